@@ -75,7 +75,10 @@ Definition check_corr (cs : case) : bool :=
                     cmp (model_q QIntegral p rho (co_chan o)) (co_sint o)
                     && cmp (model_q QInitial p rho (co_chan o)) (co_sini o)
                     && cmp (model_q QFinal p rho (co_chan o)) (co_sfin o)) obs)
-      && real_matches r den
+      && (real_matches r den
+          (* malformed stream: an empty table/point pulse never evaluates its values in the code (the missing
+             parameter goes unnoticed), the denotation evaluates every entry *)
+          || (negb strict && match r, den with RNone, None => true | _, _ => false end))
       && match r, den with
          | ROk _, Some pcs =>
              forallb (fun o =>
